@@ -20,7 +20,7 @@ def named_problems(case, p, bins):
 
 
 def problems_of(case):
-    """Run the case in all six presentations.  Returns (problems, per-presentation sorted sums, calls)."""
+    """Run the case in all seven presentations.  Returns (problems, per-presentation sorted sums, calls)."""
     probs, seen = [], {}
     for pres in sut.PRESENTATIONS:
         p, o = sut.run_case(case, "PartitionAndSumsTuple", pres=pres)
@@ -150,8 +150,8 @@ def valid(case):
 
 
 def legs(tier):
-    rule = ("hypothesis: any of the 19 algorithms on a C01/C03/C05 integer input, run in all six presentations (list, "
-            "numpy array, dict with string names, dict with integer names chosen to mislead, names + value function); "
+    rule = ("hypothesis: any of the 19 algorithms on a C01/C03/C05 integer input, run in all seven presentations (list, "
+            "numpy array, dict with string names, dict with integer names chosen to mislead, dict with names of both kinds, names + value function, id array + value function); "
             "oracle: identical sorted sum vector in all five, named result is a partition/packing/cover of the names, "
             "values of the names reproduce the reported sums; non-trivial = >= 3 items, >= 2 distinct values and the integer "
             "names are ordered differently from the values")
@@ -173,7 +173,7 @@ def legs(tier):
 
 def main():
     return runner.run_check(PROP, legs(env.tier()), level="exploration", assumptions=[
-        "names inside one input are homogeneous (all str or all int) and distinct",
+        "names inside one input are distinct; strings, integers, or (presentation dict-mixed) both kinds in one dict",
         "integer values (arrays are int64 or float64 holding the same integers)",
         "ILP: a disagreement that disappears when re-solved with CBC preprocessing off is a solver inconsistency",
         "size envelope per algorithm as in C01"])
